@@ -1,7 +1,44 @@
 (* Properties/C06.v — mkdir creates exactly the tree (over the finite-map file-system model). *)
 From Coq Require Import List Ascii String.
-From GT Require Import Base.GoStr Tree.Tree Tree.Grower Api.Simple Fs.FsModel Fs.Mkdir Proofs.FsBasic.
+From GT Require Import Base.GoStr Tree.Tree Tree.Grower Out.Spreader Api.Simple Fs.FsModel Fs.Mkdir Fs.Verify
+  Proofs.Paths Proofs.Programmable Proofs.FsBasic Proofs.MkdirExact.
 Import ListNotations.
+
+(* THE PROPERTY AT FULL STRENGTH (over the file-system model).  For every forest whose names are
+   single path elements the OS accepts, with pairwise distinct root names (and sibling names,
+   which the builder guarantees), every extension list, every target directory (existing,
+   missing, nested, "."), every well-formed pre-state in which no root exists:
+   mkdir returns nil; the new file system is the old one followed by exactly the missing
+   prefixes of the target and one entry per node, in pre-order, each a directory or -- for a
+   childless node whose name ends with an extension -- an empty file; nothing that existed
+   changed; no node path existed before; strict verification passes right after; the
+   per-root counts of new directories / files are those of the dry-run report *)
+Theorem C06_success : forall bf exts tc ts f,
+  eok tc -> acc tc ->
+  Forall (fun t => Forall name_ok (tnames t)) ts -> all_nodup ts -> NoDup (map tname ts) ->
+  fs_ok f ->
+  (forall t, In t ts -> stat f (tjoin (pth tc) (tname t)) = StNone) ->
+  let gs := map (grow_root bf) ts in
+  let f' := f ++ added exts tc f gs in
+  mkdirer exts (dir_of tc) f gs = (f', Ok tt) /\
+  (forall p k, lookup p f = Some k -> lookup p f' = Some k) /\
+  (forall p k, lookup p f = None ->
+     (lookup p f' = Some k <->
+      (exists g x, In g gs /\ In x (gnodes g) /\ p = tjoin (pth tc) (gpath x) /\ k = kind_of exts x) \/
+      (gs <> [] /\ k = KDir /\ exists a, pfx a tc /\ a <> [] /\ p = pth a))) /\
+  (forall g x, In g gs -> In x (gnodes g) -> lookup (tjoin (pth tc) (gpath x)) f = None) /\
+  (forall strict, verifier strict (pth tc) f' gs = Ok tt) /\
+  (forall g, In g gs -> per_root_counts exts (pth tc) f' g) /\
+  fs_ok f' /\
+  (all_dirs f [] tc -> f' = f ++ flat_map (entries exts (pth tc)) gs).
+Proof. exact mkdir_exact. Qed.
+Print Assumptions C06_success.
+
+(* its hypotheses are satisfiable (a two-root forest with a file leaf into a missing target) *)
+Example C06_success_nonvacuous :
+  eok ex_tc /\ acc ex_tc /\ Forall (fun t => Forall name_ok (tnames t)) ex_ts /\ all_nodup ex_ts /\
+  NoDup (map tname ex_ts) /\ fs_ok [] /\ (forall t, In t ex_ts -> stat [] (tjoin (pth ex_tc) (tname t)) = StNone).
+Proof. exact ex_hyps. Qed.
 
 (* if any root already exists (as a file, as a directory, or Stat fails otherwise) the call
    fails with the path-exists error and the file system is unchanged *)
